@@ -712,3 +712,28 @@ def to_souffle(P, with_io=True):
         out.append(fmt_rule(r))
     out.extend(P.directives)
     return "\n".join(out) + "\n", facts
+
+
+def add_queries(P, ch, feat, n=1):
+    """append output relations q<i>(free columns) :- R(const/var...) that query an existing relation with constants"""
+    cands = [P.rels[x] for x in P.order if len(P.rels[x].types) > 0 and P.rels[x].kind == "idb"]
+    added = []
+    if not cands:
+        return added
+    for i in range(n):
+        rel = ch.choice(cands)
+        args, free = [], []
+        for ty in rel.types:
+            if ch.bool(0.5) and not isinstance(ty, RecT):
+                args.append(Const(gen_value(ch, ty, feat, small_only=True), ty))
+            else:
+                v = Var("q%d_%d" % (i, len(free)), ty)
+                free.append(v)
+                args.append(v)
+        q = Rel("q%d" % i, [v.ty for v in free], "idb")
+        q.group = len(P.groups)
+        P.add_rel(q)
+        P.groups.append([q.name])
+        P.rules.append(Rule(Atom(q.name, list(free)), [Atom(rel.name, args)]))
+        added.append(q.name)
+    return added
